@@ -60,6 +60,8 @@ def _transition(args):
 
 def bfs(model, depth, workers=None, budget_s=None):
     workers = workers or int(os.environ.get("VERIF_WORKERS", "0")) or min(16, os.cpu_count() or 1)
+    if budget_s:
+        budget_s = budget_s * float(os.environ.get("VERIF_BUDGET_SCALE", "1") or 1)     # smoke runs shorten every cap (see mc/run.py)
     t0 = time.time()
     stats = Stats()
     _M["model"] = model
